@@ -77,6 +77,15 @@ type c04Scn struct {
 	cap        int // cap in the thorough tier (0: exhaustive)
 	curve      string // scalar field of the 32-byte scalars in the messages: "" = secp256k1, "bls"
 	run        func(seed int64, base uint64, hook Hook) *c04Res
+	runWith    func(seed int64, base uint64, hook Hook, coh *c04Coh) *c04Res // run = runWith(…, nil); runCoh = runWith(…, nil hook, coh)
+	// coherent deviations (c04_coh.go): kinds × deviators to run, the dealers (for the position token),
+	// and the runner (nil: none for this scenario)
+	cohKinds   []string
+	cohDevs    []ID
+	cohDevsAll []ID
+	runCoh     func(seed int64, base uint64, coh *c04Coh) *c04Res
+	// trusted: the party the caller configured as trusted (redistribution anchor); it never deviates
+	trusted ID
 	// label renames the protocol for a sender whose role differs (redistribution newcomer: it deals
 	// nothing, its placeholder messages are ignored by everybody); nil: proto
 	label func(sender ID) string
@@ -145,7 +154,7 @@ func c04Prepare(o *jobOut, seed int64, idx int, scn c04Scn, thorough bool) *c04P
 	p.log = h.net.Log
 	for ri, rec := range p.log {
 		root := c04Tree(rec.Orig)
-		if root == nil {
+		if root == nil || (scn.trusted != 0 && rec.From == scn.trusted) {
 			continue
 		}
 		var d c04Donors
@@ -512,6 +521,15 @@ func runC04(c *Ctx) {
 		for _, ci := range sel {
 			cs := p.cases[ci]
 			jobs = append(jobs, func(o *jobOut) { c04RunCase(o, c.Seed, i, p, cs) })
+		}
+		// coherent deviations: every kind × every deviator of the scenario (both tiers)
+		if p.scn.runCoh != nil {
+			for _, dev := range p.scn.cohDevs {
+				for _, kind := range p.scn.cohKinds {
+					coh := c04Coh{kind: kind, dev: dev}
+					jobs = append(jobs, func(o *jobOut) { c04RunCoherent(o, c.Seed, i, p, coh) })
+				}
+			}
 		}
 	}
 	runJobs(c, par, jobs)
